@@ -418,12 +418,29 @@ class Evaluator:
                 entered.append(cm)
             try:
                 self.block(st.body, env)
-            finally:
+            except _Raise as e:
+                # a model context manager may swallow the modelled exception (contextlib.suppress)
+                swallowed = False
+                for cm in reversed(entered):
+                    if isinstance(cm, _Ctx):
+                        cm.exit()
+                    elif cm.__exit__(e.kind, e, None):
+                        swallowed = True
+                if not swallowed:
+                    raise
+                return
+            except BaseException:
                 for cm in reversed(entered):
                     if isinstance(cm, _Ctx):
                         cm.exit()
                     else:
                         cm.__exit__(None, None, None)
+                raise
+            for cm in reversed(entered):
+                if isinstance(cm, _Ctx):
+                    cm.exit()
+                else:
+                    cm.__exit__(None, None, None)
             return
         if isinstance(st, ast.Assert):
             if not self.truth(self.expr(st.test, env)):
@@ -478,6 +495,12 @@ class Evaluator:
                 except (TypeError, ValueError):
                     raise _Raise('TypeError')
             return Opaque('format') if isinstance(a, str) else a % b
+        if isinstance(op, ast.Mult):
+            return a * b
+        if isinstance(op, ast.FloorDiv):
+            return a // b
+        if isinstance(op, ast.Div):
+            return a / b
         raise AnalysisError(f'unsupported operator {type(op).__name__}')
 
     def expr(self, e, env):
@@ -842,6 +865,81 @@ class Record:
 class Obj(Record):
     """A record that models its object completely: reading an attribute it does not have
     raises AttributeError in the evaluated program (for Record it is an analysis error)."""
+
+
+class SourceBacked(Record):
+    """A model object whose methods, properties and container protocol are the ones of a class of the
+    analysed program, evaluated from its source: only the state (the attributes given at construction)
+    is the rule's. Attributes the class does not define are missing, as on the real object."""
+
+    def __init__(self, module, cls, intrinsics=None, **state):
+        object.__setattr__(self, '_sb', (module, cls, dict(intrinsics or {})))
+        Record.__init__(self, **state)
+
+    def _sb_member(self, name):
+        module, cls, _ = object.__getattribute__(self, '_sb')
+        q = f'{cls}.{name}'
+        if module.has(q):
+            n = module.get(q)
+            if isinstance(n, ast.FunctionDef):
+                return n
+        for st in module.get(cls).body:
+            if isinstance(st, ast.Assign) and any(isinstance(t, ast.Name) and t.id == name for t in st.targets):
+                return st
+        return None
+
+    def _sb_call(self, fn, a, k):
+        module, cls, intr = object.__getattribute__(self, '_sb')
+        return Evaluator(fn, intrinsics=intr, module=module, cls=cls).call_function(fn, list(a), dict(k), bound_self=self)
+
+    def __getattr__(self, name):
+        if name.startswith('_sb'):
+            raise AttributeError(name)
+        mem = self._sb_member(name)
+        if isinstance(mem, ast.FunctionDef):
+            if any(text(d) == 'property' for d in mem.decorator_list):
+                return self._sb_call(mem, (), {})
+            return lambda *a, **k: self._sb_call(mem, a, k)
+        if isinstance(mem, ast.Assign):
+            v = mem.value
+            if isinstance(v, ast.Call) and text(v.func) == 'property' and v.args:
+                g = v.args[0]
+                module, cls, intr = object.__getattribute__(self, '_sb')
+                if isinstance(g, ast.Lambda):
+                    return Evaluator(g, intrinsics=intr, module=module, cls=cls).call_function(g, [self], {})
+                gm = self._sb_member(g.id) if isinstance(g, ast.Name) else None
+                if isinstance(gm, ast.FunctionDef):
+                    return self._sb_call(gm, (), {})
+            module, cls, intr = object.__getattribute__(self, '_sb')
+            return Evaluator(mem, intrinsics=intr, module=module, cls=cls).expr(v, {})
+        raise AttributeError(name)
+
+    def _sb_proto(self, name, *a):
+        mem = self._sb_member(name)
+        if not isinstance(mem, ast.FunctionDef):
+            raise TypeError(f'the class does not define {name}')
+        return self._sb_call(mem, a, {})
+
+    def __len__(self):
+        return self._sb_proto('__len__')
+
+    def __iter__(self):
+        return iter(self._sb_proto('__iter__'))
+
+    def __getitem__(self, i):
+        return self._sb_proto('__getitem__', i)
+
+    def __delitem__(self, i):
+        return self._sb_proto('__delitem__', i)
+
+    def __setitem__(self, i, v):
+        return self._sb_proto('__setitem__', i, v)
+
+    def __contains__(self, x):
+        mem = self._sb_member('__contains__')
+        if isinstance(mem, ast.FunctionDef):
+            return self._sb_call(mem, (x,), {})
+        return any(y == x for y in self)
 
 
 class Loose(Record):
